@@ -300,13 +300,26 @@ CONREF = {
     'CR_none': D('type A { required n: int64; }'),
 }
 FAMILY.update(CONREF)
-FOCUS_GROUPS = [(list(DEEP), True), (list(FIELDS), False),
+# a type that extends both a type and that type's own base (redundant
+# direct base), with inherited pointers / constraints dropped at the root
+REPARENT = {
+    'RP_0': D('type T { x: str; } type B extending T; type A extending B;'),
+    'RP_1': D('type T { x: str; } type B extending T; '
+              'type A extending B, T;'),
+    'RP_2': D('type T; type B extending T; type A extending B, T;'),
+    'RP_3': D('type T { x: str { constraint exclusive } } '
+              'type B extending T; type A extending B, T;'),
+}
+FAMILY.update(REPARENT)
+FOCUS_GROUPS = [(list(REPARENT), True),
+                (list(DEEP), True), (list(FIELDS), False),
                 (list(ALD), True), (list(REBASE), True),
                 (list(IMPLICIT), True), (list(CONREF), True)]
 # groups whose every 3-chain is walked by C10 (state reached by migration
 # matters); the alias-default group is represented by its base <-> variant
 # chains only (one known root cause, see KNOWN_FINDINGS.json)
-CHAIN3_GROUPS = [list(REBASE), list(IMPLICIT), list(CONREF)]
+CHAIN3_GROUPS = [list(REBASE), list(IMPLICIT), list(CONREF),
+                 list(REPARENT)]
 
 # members whose second module shadows std names used (unqualified in the
 # source) by the first one: the described text must stay self-contained
@@ -484,7 +497,8 @@ PAIR_ONLY_GROUPS = [list(OVERDROP)]
 
 # groups that take part in the pairwise / chain explorations only through
 # their own focus-group pairs (C03 still describes every FAMILY member)
-NOT_PAIRED = set(INHCON) | set(CONREF) | set(XMOD) | set(OVERDROP)
+NOT_PAIRED = (set(INHCON) | set(CONREF) | set(XMOD) | set(OVERDROP)
+              | set(REPARENT))
 
 
 def names(quick):
